@@ -4,6 +4,7 @@ with concrete operands is recomputed with the dense formulas on the densely embe
 
 import contextlib
 import math
+import mpmath as mp
 
 import jax
 import jax.tree_util as tu
@@ -281,37 +282,41 @@ class AlgebraMonitor:
             self.v("rescale_cholesky", k, f"covariance is not multiplied by factor^2: {e:.2e}")
 
     def check_logpdf(self, rv, u, out):
-        m, P = embed.normal_np(rv)
+        """Reference in 50 digits from the float factor itself (P = L L^T formed exactly): float64 arithmetic on P
+        loses the log-determinant as soon as cond(P) approaches 1e16, while the library's QR of the factor does not
+        (observed: library = 50-digit value to 16 digits where a float64 Cholesky of P was 5e-7 off)."""
         k = embed.kind(rv)
+        m, P = embed.normal_mp(rv)
         uu = onp.asarray(u, dtype=float)
         uf = uu if k == "dense" else (uu.reshape(-1) if k == "isotropic" else uu.T.reshape(-1))
-        if uf.shape != m.shape:
+        n = m.rows
+        if uf.shape != (n,):
             return
-        if not onp.all(onp.isfinite(P)) or not onp.any(P):
+        if not onp.all(onp.isfinite(uf)) or not onp.all(onp.isfinite(onp.asarray(rv.cholesky_flat, dtype=float))):
             return
-        # work on the correlation-like matrix D^-1 P D^-1 (a common or diagonal scaling changes neither the decision
-        # "numerically singular" nor the log-density other than through log det D); avoids under/overflow at 1e-24 P
-        dsc = onp.sqrt(onp.abs(onp.diag(P)))
-        dsc = onp.where(dsc > 0, dsc, 1.0)
-        Pn = P / onp.outer(dsc, dsc)
         try:
-            Ln = onp.linalg.cholesky(Pn)
-            ev = onp.linalg.eigvalsh((Pn + Pn.T) / 2)
-        except onp.linalg.LinAlgError:
+            Lc = mp.cholesky(P)
+        except (ValueError, ZeroDivisionError, TypeError):
             self.counts["logpdf_skipped_singular"] = self.counts.get("logpdf_skipped_singular", 0) + 1
             return
-        L = dsc[:, None] * Ln
-        cond = onp.max(onp.diag(Ln)) / max(onp.min(onp.diag(Ln)), 1e-300)
-        if cond > 1e7 or onp.min(ev) <= 1e-13 * onp.max(ev):
+        # rounding of the library's route (QR of L^T, column j has norm sqrt(P_jj), pivot |R_jj| = Lc_jj):
+        # log|R_jj| carries about eps sqrt(P_jj) / Lc_jj
+        amp = [float(mp.sqrt(P[j, j]) / Lc[j, j]) if Lc[j, j] > 0 else float("inf") for j in range(n)]
+        if not all(math.isfinite(a) for a in amp) or max(amp) > 1e12:
             # numerically singular covariance (exactly known coefficients): the density is not defined
             self.counts["logpdf_skipped_singular"] = self.counts.get("logpdf_skipped_singular", 0) + 1
             return
-        w = onp.linalg.solve(L, uf - m)
-        ref = -0.5 * (w @ w) - onp.sum(onp.log(onp.diag(L))) - 0.5 * m.size * math.log(2 * math.pi)
-        e = abs(float(out) - ref) / (1 + abs(ref))
-        self.note("logpdf", k, e)
-        if e > 1e-7 + 1e-14 * min(cond**2, 1e8):
-            self.v("logpdf", k, f"log-density {float(out)!r} differs from the multivariate-normal definition {ref!r}")
+        r = mp.matrix([mp.mpf(float(a)) for a in uf]) - m
+        w = mp.lu_solve(Lc, r) if any(x != 0 for x in r) else mp.zeros(n, 1)
+        maha = sum(x * x for x in w)
+        logdet = 2 * sum(mp.log(Lc[j, j]) for j in range(n))
+        ref = float(-0.5 * (maha + logdet + n * mp.log(2 * mp.pi)))
+        tol = 1e-10 * (1 + abs(ref)) + 1e3 * 2.2e-16 * (sum(amp) + max(amp) * float(maha))
+        err = abs(float(out) - ref)
+        self.note("logpdf", k, err / tol)
+        if not (err <= tol):
+            self.v("logpdf", k, f"log-density {float(out)!r} differs from the multivariate-normal definition {ref!r} (tolerance {tol:.1e}, "
+                                f"pivot amplification {max(amp):.1e})")
 
     def check_std(self, rv, out):
         m, P = embed.normal_np(rv)
@@ -389,6 +394,12 @@ def algebra(mon):
         def wrapped(self, *a, **k):
             out = orig(self, *a, **k)
             if mon._depth == 0 and _concrete(self, a, out):
+                # operands that are already non-finite (e.g. the state after the known dynamic-calibration zero-residual
+                # step) make every result non-finite: nothing about the algebra can be decided from them
+                if not all(onp.all(onp.isfinite(onp.asarray(x, dtype=float))) for x in tu.tree_leaves((self, a))
+                           if hasattr(x, "dtype") or isinstance(x, (int, float))):
+                    mon.counts["nonfinite_operands_skipped"] = mon.counts.get("nonfinite_operands_skipped", 0) + 1
+                    return out
                 mon._depth += 1
                 try:
                     if cls in COND_CLASSES and _unbatched_cond(self):
